@@ -75,3 +75,33 @@ Proof.
     rewrite be_to_N_cons. cbn [length]. rewrite Nat2N.inj_succ, N.pow_succ_r'.
     specialize (IH Hl). nia.
 Qed.
+
+(* ---- NoDup helpers (not in the 8.16 standard library) ---- *)
+Lemma nodup_app_l {A} (a b : list A) : NoDup (a ++ b) -> NoDup a.
+Proof.
+  induction a as [|x a IH]; cbn; intros H; [constructor|].
+  inversion H; subst. constructor; [|apply IH; assumption].
+  intros Hx. apply H2. apply in_or_app. left. exact Hx.
+Qed.
+
+Lemma nodup_app_r {A} (a b : list A) : NoDup (a ++ b) -> NoDup b.
+Proof. induction a as [|x a IH]; cbn; intros H; [exact H|]. inversion H; subst. apply IH. assumption. Qed.
+
+Lemma nodup_app_disj {A} (a b : list A) x : NoDup (a ++ b) -> In x a -> In x b -> False.
+Proof.
+  induction a as [|y a IH]; cbn; [tauto|]. intros H [->|Ha] Hb; inversion H; subst.
+  - apply H2. apply in_or_app. right. exact Hb.
+  - apply IH; assumption.
+Qed.
+
+Lemma nodup_snoc {A} (l : list A) x : NoDup l -> ~ In x l -> NoDup (l ++ [x]).
+Proof.
+  induction l as [|y l IH]; cbn; intros H Hn.
+  - constructor; [tauto | constructor].
+  - inversion H; subst. constructor.
+    + intros Hy. apply in_app_or in Hy as [Hy|[Hy|[]]]; [contradiction | subst; tauto].
+    + apply IH; [assumption | tauto].
+Qed.
+
+Lemma firstn_in {A} n (l : list A) x : In x (firstn n l) -> In x l.
+Proof. intros H. rewrite <- (firstn_skipn n l). apply in_or_app. left. exact H. Qed.
